@@ -5,7 +5,8 @@ P=$1; shift
 cd /repo || exit 1
 if [ -n "$(git status --porcelain)" ]; then echo "/repo not clean"; exit 1; fi
 git apply $P || { echo "patch does not apply"; exit 1; }
-trap 'git -C /repo reset -q --hard HEAD ; git -C /repo clean -fdq' EXIT
+trap 'git -C /repo reset -q --hard HEAD ; git -C /repo clean -fdq; [ -n "$VERIF_EVIDENCE_DIR" ] && rm -rf "$VERIF_EVIDENCE_DIR"' EXIT
+export VERIF_EVIDENCE_DIR=$(mktemp -d /tmp/seedtest-ev.XXXXXX)
 for id in "$@"; do
   echo "=== $id on seeded tree"
   VERIF_ROOT=/verif /verif/bin/check $id ${TIER:-quick} 2>&1 | grep -E "^VIOLATION|signature:|^C[0-9]+ |KNOWN|INCONCL|BUILD" | sort | uniq -c | sort -rn | head -${LINES_MAX:-8}
